@@ -1,6 +1,6 @@
 From Coq Require Import NArith ZArith.
-Require Import DS.Collections DS.CollectionsSpec.
+Require Import DS.Collections DS.CollectionsSpec DS.CollectionsTables.
 Require Import ExtrOcamlBasic.
 Extraction Language OCaml.
 Extraction "../ocaml/gen/c12_model.ml" N.of_nat N.to_nat Z.of_N Z.to_N
-  init step_h step_s agrees dump_handle table_size native.
+  init step_h step_s agrees dump_handle table_size native cmd_of_alias.
